@@ -17,7 +17,7 @@ def hh(e, salt):
 def run(v, tier, seed, replay):
     if replay:
         return suvec.replay(v, replay, "asan")
-    cfg = suvec.bfs_cfg("C14_guard", vecs=3, dims=(2, 3), exts=(1, 2), maxops=2, ops=("add", "sub", "elementwise"), next_op="SpecGuard",
+    cfg = suvec.bfs_cfg("C14_guard", vecs=3, dims=(2, 3), exts=(1, 2), maxops=2, ops=("add", "sub", "neg", "elementwise"), next_op="SpecGuard",
                         props=("WriteFrame", "ExternalStable", "FailureFrame"))
     r = vlib.tlc("SUVec", cfg, timeout=2400)
     vlib.tlc_ok(r, "C14 guard exploration")
